@@ -333,3 +333,31 @@ func Verif_C11_cost_override_is_per_peer() {
 	verifapi.Quiesce()
 	verifapi.Assert("no-lock-left-held", verifapi.HeldLocks() == 0)
 }
+
+// Verif_C11_allow_list_given_through_the_api: the allow-list reaches the protocol loop through the
+// public backend option (BackendAllowedPeers), as every backend hands it over: no list at all (anyone
+// may connect), an EMPTY list (nobody may), a list naming the peer, a list naming somebody else.
+func Verif_C11_allow_list_given_through_the_api() {
+	verifapi.SelectFork(false)
+	n := verifNetceptor("A")
+	s := n.s
+	bi := &BackendInfo{connectionCost: 1}
+	which := verifapi.Choose(4)
+	switch which {
+	case 1:
+		BackendAllowedPeers([]string{})(bi)
+	case 2:
+		BackendAllowedPeers([]string{"B"})(bi)
+	case 3:
+		BackendAllowedPeers([]string{"Z"})(bi)
+	}
+	r := verifStartProtocol(n, [][]byte{verifHandshake("B", 1)}, bi)
+	verifapi.Quiesce()
+	_, connected := s.connections["B"]
+	verifapi.Cover("handshake-handled")
+	admissible := which == 0 || which == 2
+	verifapi.Assert("peer-connected-iff-the-allow-list-admits-it", connected == admissible)
+	verifapi.Assert("refused-peer-is-told", admissible || verifRejected(*r.sess.sent))
+	close(r.sess.gate)
+	verifapi.Quiesce()
+}
